@@ -170,7 +170,7 @@ def C09(tier, seed):
     stages[0].mc = mc
     stages[0].required |= {"C09.act.add", "C09.act.add_assign"}
     return {
-        "stages": stages,
+        "stages": stages + [history_stage()],
         "exhaustive": True,
         "rule": "long merge histories (left / right folds of up to 300 000 (10^6) singleton states with + and +=, folds of chunks of 1..7, balanced trees) on "
                 "negative, positive and mixed-sign data whose partial sums round in f32 / f64: sample count, mean, variance, standard deviation and the interval "
@@ -244,7 +244,7 @@ def C20(tier, seed):
     stages.append(big)
     # constant samples of an inexact value (0.1, 0.3, 0.7; harmonic 10, 10/3): the restored state must be accepted
     # and equal although its sum of squares is "inconsistent" with its sum by rounding noise
-    for fl, ty, d in (("arith", "f64", 1), ("arith", "f64", 7), ("arith", "f32", 3), ("harm", "f64", 1), ("unpaired", "f64", 1)):
+    for fl, ty, d in (("arith", "f64", 1), ("arith", "f64", 7), ("arith", "f32", 3), ("harm", "f64", 1), ("unpaired", "f64", 1), ("geo", "f64", 5)):
         fr = acc_stage(fl, 25, ty=ty, rich=0, R=2, req=[], shards=4, name=f"rt_{fl}_{ty}_frac{d}", simulate="num=%d" % (40 if tier == "quick" else 400))
         fr.env.update({"ACC_RT": 1, "ACC_FRAC": d})
         fr.harness_bin = HARNESS_SERDE
@@ -283,7 +283,7 @@ def C11(tier, seed):
     return {
         "stages": [st("mean", mean_req),
                    st("prop", ["C11.no_panic", "C11.is_significant", "C11.is_significant_k_gt_n", "C11.documented_panic", "C11.stats_new", "C11.prop"]),
-                   st("quant", ["C11.no_panic", "C11.quant_ranks", "C11.quant_data", "C11.documented_panic_quantile"])]
+                   st("quant", ["C11.no_panic", "C11.quant_ranks", "C11.quant_data", "C11.documented_panic_quantile", "C11.unsorted_input_to_sorted_unchecked"])]
                   # valid input of very large size must not panic either (overflow checks are on)
                   + bigpop_stages(['C02.domain', 'C02.in01', 'C02.no_panic', 'C02.shape'], ['C03.domain', 'C03.in_range', 'C03.kind', 'C03.no_panic']),
         "exhaustive": True,
@@ -303,7 +303,7 @@ def prop_stage(grp, nmax, req, levels="sel", shards=8, big=6):
                  env={"GRP": grp, "PROP_N": nmax, "PROP_LEVELS": levels, "PROP_BIG": big}, required=req, shards=shards)
 
 
-C02_REQ = ["C02.population_beyond_32_bits", "C02.domain", "C02.no_panic", "C02.shape", "C02.in01", "C02.level_echo", "C02.root_lo", "C02.root_hi",
+C02_REQ = ["C02.ratio_rounding_tie", "C02.population_beyond_32_bits", "C02.domain", "C02.no_panic", "C02.shape", "C02.in01", "C02.level_echo", "C02.root_lo", "C02.root_hi",
            "C02.around_estimate", "C02.front_end", "C02.negative_z", "C02.zero_z", "C02.method.wilson", "C02.method.wald",
            "C02.kind.two", "C02.kind.upper", "C02.kind.lower"] + \
           ["C02.front_end." + f for f in ("ci", "ci_wilson_ratio", "ci_true", "ci_if", "stats_new", "stats_from_iter", "stats_extend", "stats_extend_if", "stats_add", "stats_mixed")] + \
@@ -330,7 +330,7 @@ def C02(tier, seed):
     st.mc = list(TABLES_MC)
     own = own_stage("W", "Trace_Proportion", ["C02.root_lo", "C02.root_hi", "C02.domain"])
     return {
-        "stages": [st, own],
+        "stages": [st, own, history_stage()],
         "exhaustive": True,
         "rule": "every ci_wilson / ci_z_normal call made by the repository's OWN test-suite (about 18 000 calls of the Monte-Carlo accuracy test, "
                 "recorded by the guarded hook) through the same root-enclosure judge; "
@@ -351,7 +351,7 @@ def C17(tier, seed):
     return {
         "stages": [row,
                    prop_stage("mult", n, ["C17.shrinks_with_n"]),
-                   prop_stage("levels", n, ["C17.wider_with_level"])] + bigpop_stages(['C02.domain', 'C02.front_end', 'C02.in01', 'C02.no_panic', 'C02.root_hi', 'C02.root_lo', 'C02.shape'], [])[:1],
+                   prop_stage("levels", n, ["C17.wider_with_level"]), history_stage()] + bigpop_stages(['C02.domain', 'C02.front_end', 'C02.in01', 'C02.no_panic', 'C02.root_hi', 'C02.root_lo', 'C02.shape'], [])[:1],
         "exhaustive": True,
         "rule": "relations over the recorded table (n, k) -> interval: for every n <= 40 (130) and confidence, consecutive k (monotone), "
                 "k vs n-k within two-sided rows and between upper and lower rows (mirror, 2^-50), midpoint between k/n and 1/2; "
@@ -380,7 +380,7 @@ def C03(tier, seed):
     own = own_stage("Q", "Trace_Quantile", ["C03.ranks", "C03.domain"])
     own.shards = 1
     return {
-        "stages": [ranks, perm, shuf, own],
+        "stages": [ranks, perm, shuf, own, history_stage()],
         "exhaustive": True,
         "rule": "ranks: every n in 0..70 (400) x 35 dyadic quantiles (incl. 0, 1, outside [0,1]) + products at half-integers and their float "
                 "neighbours + NaN x 5 levels x 3 kinds through ci_indices, Stats::ci, Stats::index; data: EVERY permutation of 4 multiset shapes "
@@ -406,7 +406,7 @@ def C12(tier, seed):
     fronts = Stage("fronts", ("Gen_Proportion", "Gen_Proportion.cfg"), ("Trace_Proportion", "Trace_Proportion.cfg"),
                    env={"GRP": "fronts", "PROP_N": 0, "PROP_LEVELS": "sel", "PROP_BIG": 0}, shards=6,
                    required=["C02.front_end", "C02.front_end.ci", "C02.front_end.ci_wilson_ratio", "C02.front_end.stats_new"])
-    fronts.adopt = {"C02.front_end", "C02.no_panic", "C02.domain"}
+    fronts.adopt = {"C02.front_end", "C02.no_panic", "C02.domain", "C02.root_lo", "C02.root_hi", "C02.shape"}    # (level 0.2 as well: negative z)
     return {
         # beyond the sizes whose binomial can be summed: the Wilson interval is the root pair of the score equation (its coverage is
         # then the nominal one) and the ranks stay within 4 sqrt(n) of round(q n)
@@ -473,7 +473,7 @@ def C01(tier, seed):
     st.mc = list(TABLES_MC)
     own = own_stage("M", "Trace_Hook", ["C01.own_tests_kind", "C01.own_tests_bound"])
     return {
-        "stages": [st, own],
+        "stages": [st, own, history_stage()],
         "exhaustive": False,
         "rule": "every Arithmetic::ci_mean call made by the repository's OWN test-suite (about 30 000, recorded by the guarded hook) judged against "
                 "the interval formula on the statistics it was computed from; "
@@ -498,8 +498,11 @@ def C06(tier, seed):
     st.mc = list(TABLES_MC) + [("MC_TCert", "MC_TCert.cfg", {"TCERT_MAX": 80 if tier == "quick" else 300}, 4)]
     zrow = prop_stage("row", 30 if tier == "quick" else 60, ["C02.root_lo", "C02.root_hi", "C02.negative_z", "C02.zero_z"], levels="all")
     zrow.adopt = {"C02.root_lo", "C02.root_hi"}       # the z implied by a Wilson / Wald bound
+    # query - update - query histories of the comparison state (every program of 2 (3) calls, incl. updates through stats_a_mut)
+    c06_hist = acc_stage("unpaired", 2 if tier == "quick" else 3, shards=8, name="history_unpaired")
+    c06_hist.adopt = set(ACC_REQ)
     return {
-        "stages": [st, c06_designed(), zrow],
+        "stages": [st, c06_designed(), zrow, history_stage(), c06_hist],
         "exhaustive": True,
         "rule": "symmetric probe samples (+-1, exact standard error 1/sqrt(n-1)) for 150 (all 430) degrees-of-freedom rows of the reference table "
                 "(every integer 1..120 (300), log-spaced up to 99 999) and n beyond the switch x all 19 levels x 3 kinds: the implied critical value "
@@ -530,7 +533,7 @@ def C04(tier, seed):
         a.adopt = set(ACC_REQ)
         hist.append(a)
     return {
-        "stages": [st, designed] + hist,
+        "stages": [st, designed] + hist + [history_stage()],
         "exhaustive": False,
         "rule": "12 designed sample pairs with non-integer effective dof (1.9 .. 20.2; neighbours share the integer part) x 19 levels x 3 kinds, each "
                 "also exchanged, executed back to back on one thread and judged against the t quantile at that REAL dof (table rows generated for "
@@ -557,7 +560,7 @@ def C05(tier, seed):
         a.adopt = set(ACC_REQ)
         rej.append(a)
     return {
-        "stages": [st] + rej,
+        "stages": [st] + rej + [history_stage()],
         "exhaustive": False,
         "rule": "30 (300) seeded strictly positive samples (wide dynamic range, powers of two, near-constant, straddling) x 6 (17) levels x 3 kinds x "
                 "f32/f64: the geometric / harmonic interval, mean and standard error must be the documented transforms of the crate's own arithmetic "
@@ -574,6 +577,15 @@ def rel_stage(part, req, sets, shards=8):
                  env={"PART": part, "REL_SETS": sets}, required=req, shards=shards)
 
 
+def history_stage():
+    """call histories on one thread (same level / other kind, nearly equal quantile arguments, degrees of freedom with the same integer
+    part): every call is repeated on a fresh thread and must give the same answer"""
+    h = rel_stage("hist", ["C10.history_independent", "C10.history.prop.ci", "C10.history.quant.ranks", "C10.history.mean.ci"], 0, shards=1)
+    h.harness_env = {"HARNESS_THREADS": 1}
+    h.adopt = {"C10.history_independent", "C10.no_panic"}
+    return h
+
+
 def C10(tier, seed):
     producers = ["arith", "geo", "harm", "paired", "unpaired", "proportion_ci", "proportion_ci_z_normal", "quantile"]
     st = rel_stage("c10", ["C10.kind", "C10.nesting", "C10.one_sided_equals_two_sided", "C10.contains_estimate",
@@ -586,7 +598,7 @@ def C10(tier, seed):
     extra = rel_stage("c10extra", ["C10.kind", "C10.nesting", "C10.one_sided_equals_two_sided", "C10.constant_sample.upper", "C10.constant_sample.lower"]
                       + ["C10.producer.quantile_data_" + e for e in ("ci", "sorted", "max_n", "max_1024")], 0, shards=8)
     return {
-        "stages": [st, seq, extra],
+        "stages": [st, seq, extra, history_stage()],
         "exhaustive": False,
         "rule": "the same groups in the other loop order (level outside, kind inside) executed back to back on one thread, so that consecutive calls "
                 "share level and degrees of freedom and differ in the kind only; "
@@ -604,8 +616,12 @@ def C16(tier, seed):
                    + ["C16.scale." + f for f in ("arith", "paired", "unpaired", "geo", "harm")]
                    + ["C16.neg." + f for f in ("arith", "paired", "unpaired")] + ["C16.shift." + f for f in ("arith", "paired", "unpaired")],
                    5 if tier == "quick" else 60)
+    # unpaired pairs whose effective dof share their integer part, back to back on one thread: the critical value must follow the real dof
+    c16_designed = mean_stage("designed", "C16", ["C04.designed_dof", "C04.real_dof_critical_value", "C04.exchange_mirrors"], 0, shards=1)
+    c16_designed.harness_env = {"HARNESS_THREADS": 1}
+    c16_designed.adopt = {"C04.real_dof_critical_value", "C04.exchange_mirrors", "C04.history_independent", "C04.shape"}
     return {
-        "stages": [st],
+        "stages": [st, c16_designed, history_stage()],
         "exhaustive": False,
         "rule": "5 (60) seeded base samples per producer x f32/f64 x 4 levels x 3 kinds, each with: scaling by 2^k, k in {-40,-7,-1,1,10,60} restricted to "
                 "exponents that avoid overflow/underflow in the type (bit-exact: same mantissa and sign, exponent + k; geometric: rounding allowance), "
